@@ -254,6 +254,14 @@ func newAgg() *agg {
 		incon: map[string]int{}, foreign: map[string]int{}, classes: map[string]int{}, knownHit: map[string]int{}, knownEx: map[string]string{}}
 }
 
+func firstLines(s string, n int) string {
+	l := strings.Split(s, "\n")
+	if len(l) > n {
+		l = l[:n]
+	}
+	return strings.Join(l, " | ")
+}
+
 func (a *agg) add(r *result) {
 	a.mu.Lock()
 	defer a.mu.Unlock()
@@ -289,6 +297,13 @@ func (a *agg) add(r *result) {
 	}
 	if len(a.samples) < 3 && r.Sample != "" {
 		a.samples = append(a.samples, map[string]interface{}{"seed": r.Params.Seed, "scenario": r.Params.Scenario, "config": r.Config, "n_ops": r.NOps, "first_op": r.Sample})
+	}
+	if r.V != nil && r.V.Sig == "panic:unknown" {
+		// a panic with no frame of package sod on its stack is a defect of the harness, not
+		// of the code under test: reported as machinery trouble (exit 2), never as a violation
+		r.Incon = "worker-died: harness panic: " + firstLines(r.V.Msg, 12)
+		a.incon[r.Incon]++
+		r.V = nil
 	}
 	if r.V != nil {
 		if r.Owned {
